@@ -24,7 +24,7 @@ type Opts struct {
 var AllFeatures = []string{
 	"async", "err", "multi", "bind", "struct", "value", "sets", "lit", "ext", "ctxparam",
 	"composite", "basic", "args", "unneeded", "multi-inj", "multi-file", "dupparam",
-	"generic", "variadic", "variadic-functype", "want-unsupplied", "kalias", "extalias", "value-and-pointer", "rewrap", "struct-both-forms", "alias-basic", "ctx-provider", "implements-error", "adv-pkg-shadowed-by-later-decl", "value-literal", "multi-var-sets", "ext-method-value", "err-alias", "generic-alias-instance", "ext-alias-differs-between-files", "chan-of-recv-chan", "ctx-alias", "set-included-twice", "prov-func-var-named-type", "nested-struct-expansion", "local-provider-ext-result", "arg-ext-type", "arg-hidden-ext", "set-ref-paren", "set-decl-paren", "set-alias-var", "elem-paren", "elem-hoisted-var", "inject-spelling", "prov-func-var",
+	"generic", "variadic", "variadic-functype", "want-unsupplied", "kalias", "extalias", "value-and-pointer", "rewrap", "struct-both-forms", "alias-basic", "ctx-provider", "implements-error", "adv-pkg-shadowed-by-later-decl", "value-literal", "multi-var-sets", "ext-method-value", "err-alias", "struct-through-alias", "generic-alias-instance", "ext-alias-differs-between-files", "chan-of-recv-chan", "ctx-alias", "set-included-twice", "prov-func-var-named-type", "nested-struct-expansion", "local-provider-ext-result", "arg-ext-type", "arg-hidden-ext", "set-ref-paren", "set-decl-paren", "set-alias-var", "elem-paren", "elem-hoisted-var", "inject-spelling", "prov-func-var",
 	"async-struct", "ptrrecv", "aiface", "embedded",
 }
 
@@ -260,7 +260,11 @@ func (g *gen) newStruct(pkg string, withFields bool) TypeID {
 	if pkg == "" {
 		nm = g.typeName(prefix)
 	} else {
-		nm = g.name(prefix)
+		// names of external types are unique per package only: two packages (even two with the
+		// same package name) may both declare an Eaa
+		k := "exttype:" + pkg
+		nm = prefix + letters(g.nameSeq[k])
+		g.nameSeq[k]++
 	}
 	t := Type{Kind: KStruct, Name: nm, Pkg: pkg}
 	if withFields {
@@ -478,6 +482,10 @@ func (g *gen) freshValueType(extOnly bool, label string) TypeID {
 			g.used["Box"] = true
 			if !extOnly && g.used["BoxOf"] == g.boxOfDeclared && g.want("generic-alias-instance", "genalias", 30) {
 				g.used["BoxOf"], g.boxOfDeclared = true, true
+				if g.allow("ext") && rapid.Bool().Draw(g.rt, "genalias-ext-arg") {
+					// the type argument lives in another package: BoxOf[extlib.Eaa]
+					el = g.newStruct(g.ensureExt().Key, false)
+				}
 				return g.addType(Type{Kind: KGeneric, Name: "Box", Elem: el, GenAlias: true})
 			}
 			return g.addType(Type{Kind: KGeneric, Name: "Box", Elem: el})
@@ -968,6 +976,11 @@ func (g *gen) genUnit(i int) {
 			st = g.c.StructOf(p.Results[0])
 		}
 		se := Elem{Kind: "struct", Struct: p.Results[0]}
+		if st.Pkg == "" && g.want("struct-through-alias", "structalias", 15) {
+			// type Haa = *Taa; kessoku.Struct[Haa]()
+			se.StructAlias = g.name("H")
+			g.c.ExtraAliases = append(g.c.ExtraAliases, [2]string{se.StructAlias, g.c.Expr(p.Results[0], "")})
+		}
 		if g.want("async-struct", "asyncstruct", 15) {
 			se.Async = g.drawAsync("asyncs")
 		}
@@ -1081,6 +1094,9 @@ func (g *gen) genGroupsAndInjectors() {
 			continue
 		}
 		f := rapid.IntRange(0, nFiles-1).Draw(g.rt, "setfile")
+		if nFiles > 1 && rapid.Bool().Draw(g.rt, "setfile-last") {
+			f = nFiles - 1 // Sets often live in another file than the (first) declaration that uses them
+		}
 		sd := SetDecl{Name: setName[k], Elems: setElems(k)}
 		sd.Paren = g.want("set-decl-paren", "setdeclparen", 10)
 		if g.want("set-alias-var", "setalias", 12) {
